@@ -52,11 +52,43 @@ def document(case):
     return inlist, {"items": [inner, inner]}
 
 
+def check_unconvertible(ctx, xctx, case, clazz, doc):
+    """C10: kept with a ConverterWarning, or ParserError when conversion warnings are configured to fail."""
+    from xsdata.exceptions import ConverterWarning
+
+    n = 0
+    for via in ("dict", "json"):
+        for strict in (False, True):
+            n += 1
+            ctx.case(("dict-unconvertible", case["kind"], case["shape"], case["pos"], strict, via))
+            cfg = ParserConfig(fail_on_converter_warnings=strict)
+            with warnings.catch_warnings(record=True) as caught:
+                warnings.simplefilter("always")
+                try:
+                    if via == "dict":
+                        out = ("ok", DictDecoder(context=xctx, config=cfg).decode(json.loads(json.dumps(doc)), clazz))
+                    else:
+                        out = ("ok", JsonParser(context=xctx, config=cfg).from_string(json.dumps(doc), clazz))
+                except Exception as ex:  # noqa: BLE001
+                    out = ("exc", ex)
+            nwarn = sum(1 for w in caught if issubclass(w.category, ConverterWarning))
+            info = {"kind": case["kind"], "shape": case["shape"], "position": case["pos"], "document": json.dumps(doc), "via": via, "strict": strict}
+            if strict and not (out[0] == "exc" and isinstance(out[1], ParserError)):
+                ctx.violation(f"fail_on_converter_warnings: unconvertible {case['shape']} for field kind {case['kind']} ({case['pos']}, {via}) did not fail with ParserError: {out[1]!r}"[:400], info)
+            if not strict and not (out[0] == "ok" and nwarn >= 1):
+                ctx.violation(f"unconvertible {case['shape']} for field kind {case['kind']} ({case['pos']}, {via}): expected the value kept with a ConverterWarning, got {out[1]!r} with {nwarn} warning(s)"[:400], info)
+    return n
+
+
 def run_matrix(ctx, want: str):
     xctx = XmlContext()
     n = 0
     for case in cases(ctx):
         clazz, doc = document(case)
+        if want == "C10":
+            if case["unconvertible"]:
+                n += check_unconvertible(ctx, xctx, case, clazz, doc)
+            continue
         for strict in ((False, True) if want == "C15" else (False,)):
             cfg = ParserConfig(fail_on_converter_warnings=strict)
             for via in ("dict", "json"):
